@@ -123,6 +123,18 @@ Definition value_agrees (p : N) (model impl : list N) : bool :=
   | _, _, _ => toks_eqb model impl
   end.
 
+(* predicate 8: the loader accepted a duration string but the value it stored
+   is not the sum of its parts (silent wrap-around) *)
+Definition wrapped_duration (p : N) (s impl : list N) : bool :=
+  match p, impl with
+  | 1, hi :: lo :: _ =>
+    match dur_value s None 0 with
+    | Some v => negb (hi * 4294967296 + lo =? v)
+    | None => true
+    end
+  | _, _ => false
+  end.
+
 Definition check_scalar (ts : list N) : list N :=
   match ts with
   | p :: r =>
@@ -139,6 +151,7 @@ Definition check_scalar (ts : list N) : list N :=
                  | Panic _ => v_diff [2]
                  end
         | 0 :: rest =>
+          if wrapped_duration p s rest then v_viol 8 else
           match model with
           | Ok v =>
             let n := lenN v in
